@@ -372,6 +372,25 @@ class Run:
                               f"{r['verdict']} ({r.get('reason', '')}); {tried} candidate inputs "
                               f"replayed on the real code without failure")
 
+    def run_lemmas(self):
+        """ghost lemmas the contracts rely on: each base/step query is one obligation"""
+        names = getattr(self.mod, "LEMMAS", [])
+        if not names:
+            return
+        from pyvc import lemmas
+        recs = []
+        for nm in names:
+            for r in getattr(lemmas, nm)():
+                recs.append(r)
+                self.n_ob += 1
+                self.solver_time += r["time_s"]
+                self.by_backend["z3"] = self.by_backend.get("z3", 0) + 1
+                if r["verdict"] == "unsat":
+                    self.n_dis += 1
+                else:
+                    self.undecided.append(f"lemma {r['lemma']}: {r['verdict']}")
+        self.extra["lemmas"] = recs
+
     def bounded_standin(self, unit, reason, budget=600):
         """The function cannot be verified (engine limit).  Its obligations, which
         held on the unchanged tree, can no longer be established; look for a
@@ -502,6 +521,7 @@ class Run:
     def main(self):
         source.reset()
         self.run_units()
+        self.run_lemmas()
         # property-specific extra layers (frames, lemmas, bounded stand-ins, audits)
         if hasattr(self.mod, "extra_checks"):
             self.mod.extra_checks(self)
